@@ -282,7 +282,8 @@ class C11(Check):
         def grammars(draw):
             m = draw(st.integers(0, 6))
             if m <= 2:
-                return draw(gens_rich.rich_grammar(nrules=3, depth=3)), 'ab12'
+                # (bytes grammars too: literals handed to parameterised rules are wrapped differently there)
+                return draw(gens_rich.rich_grammar(nrules=3, depth=3, mode='bytes' if draw(st.integers(0, 3)) == 0 else 'text')), 'ab12'
             if m == 3:
                 g = draw(gens.core_grammar(nrules=4, depth=4, mode=draw(st.sampled_from(['text', 'bytes']))))
                 return g.copy(ignores=[(draw(st.sampled_from([None, 'Sp'])), ('rx', ' +'))]), 'ab '
